@@ -237,3 +237,44 @@ func JSON(v any) string { b, _ := json.Marshal(v); return string(b) }
 
 // FromJSON unmarshals s into v.
 func FromJSON(s string, v any) error { return json.Unmarshal([]byte(s), v) }
+
+// Merge adds the counts, samples and violations of another result (a worker subprocess).
+func (r *Result) Merge(o *Result) {
+	r.mu.Lock()
+	defer r.mu.Unlock()
+	r.Evals += o.Evals
+	r.Distinct += o.Distinct
+	r.States += o.States
+	r.Trans += o.Trans
+	r.Validated += o.Validated
+	for _, s := range o.Samples {
+		if len(r.Samples) < 12 {
+			r.Samples = append(r.Samples, s)
+		}
+	}
+	if !o.Exhaustive {
+		r.Exhaustive = false
+	}
+	r.Infra = append(r.Infra, o.Infra...)
+	for _, v := range o.Violations {
+		k := SigKey(v.Kind, v.Check, v.Signature)
+		if old, ok := r.vindex[k]; ok {
+			old.Count += v.Count
+			continue
+		}
+		r.vindex[k] = v
+		r.Violations = append(r.Violations, v)
+	}
+}
+
+// WriteTo writes the result to a file without exiting (worker subprocesses).
+func (r *Result) WriteTo(path string) error {
+	if r.Violations == nil {
+		r.Violations = []*Violation{}
+	}
+	b, err := json.Marshal(r)
+	if err != nil {
+		return err
+	}
+	return os.WriteFile(path, b, 0644)
+}
